@@ -367,6 +367,8 @@ def run(facts, rep, tier):
              "reported at line 0).")
     from . import c13 as _c13
     _c13.rule_r3(facts, _MultiOnly13(rep), "C05-R8")
+    rep.rule("C05-R8b", "= C13-R3c: the line table of the nested builder that builds a block quote's content is taken over by its parent (a link inside a quote is otherwise reported at line 0).")
+    _c13.rule_r3c(facts, rep, "C05-R8b")
 
 
 class _MultiOnly13:
